@@ -101,18 +101,28 @@ theorem effectiveK_ge {T : Tun} (hT : TunOK T) (k : Nat) : 2 ≤ effectiveK T k 
   have : T.minK % 256 = T.minK := Nat.mod_eq_of_lt hT.minK256
   omega
 
-theorem new_SInv {T : Tun} (hT : TunOK T) (F : SecFns ρ) (k : Nat) (hra : Bool) : SInv T (Sketch.new T F k hra) := by
+theorem new_compactors (T : Tun) (F : SecFns ρ) (k : Nat) (hra d : Bool) :
+    (Sketch.new T F k hra d).compactors = [Compactor.mkC T F hra 0 (effectiveK T k) d] ∧
+    (Sketch.new T F k hra d).n = 0 ∧ (Sketch.new T F k hra d).numRetained = 0 ∧ (Sketch.new T F k hra d).k = effectiveK T k ∧
+    (Sketch.new T F k hra d).hra = hra ∧ (Sketch.new T F k hra d).minItem = none ∧ (Sketch.new T F k hra d).maxItem = none ∧
+    (Sketch.new T F k hra d).maxNomSize = sumCap T [Compactor.mkC T F hra 0 (effectiveK T k) d] := by
+  simp [Sketch.new, Sketch.grow]
+
+theorem new_SInv {T : Tun} (hT : TunOK T) (F : SecFns ρ) (k : Nat) (hra d : Bool) : SInv T (Sketch.new T F k hra d) := by
   have hk := effectiveK_ge hT k
-  refine ⟨hk, ?_, by simp [Sketch.new, Sketch.grow], by simp [Sketch.new, Sketch.grow, sumItems, Compactor.mk', Compactor.numItems],
-    by simp [Sketch.new, Sketch.grow], by simp [Sketch.new, Sketch.grow, totalW, weightP, Compactor.mk', cntP],
-    by simp [Sketch.new, Sketch.grow], by simp [Sketch.new, Sketch.grow],
-    by simp [Sketch.new, Sketch.grow, entered0, entered0L, Compactor.mk'], ?_, ?_, ?_⟩
-  · exact ⟨mk'_CInv hT F hra 0 _ hk, trivial⟩
-  · left; simp [Sketch.new, Sketch.grow, entered0, entered0L, Compactor.mk']
-  · left; simp [Sketch.new, Sketch.grow, entered0, entered0L, Compactor.mk']
+  obtain ⟨e1, e2, e3, e4, e5, e6, e7, e8⟩ := new_compactors T F k hra d
+  obtain ⟨f1, f2, f3, _⟩ := mkC_fields T F hra 0 (effectiveK T k) d
+  refine ⟨by rw [e4]; exact hk, by rw [e1, e5]; exact ⟨mkC_CInv hT F hra 0 _ hk d, trivial⟩, by rw [e1]; simp, ?_, by rw [e8, e1], ?_,
+    fun h => absurd e2 h, fun _ => by rw [e1]; rfl, ?_, ?_, ?_, ?_⟩
+  · rw [e3, e1]; simp [f1]
+  · rw [e2, e1]; simp [f1]
+  · rw [e2]; simp [entered0, entered0L, e1, f2]
+  · left; exact ⟨by simp [entered0, entered0L, e1, f2], e6⟩
+  · left; exact ⟨by simp [entered0, entered0L, e1, f2], e7⟩
   · intro c hc p
-    simp only [Sketch.new, Sketch.grow, List.nil_append, List.cons.injEq, and_true] at hc
-    subst hc; rfl
+    rw [e1] at hc
+    simp only [List.cons.injEq, and_true] at hc
+    subst hc; rw [f1, f2]
 
 /-! ### compress on a sketch -/
 
